@@ -126,6 +126,24 @@ func c07Eval(e *Env, m *refplay.Model, c *playCase, report bool) bool {
 	}
 	_ = off // track placement of control events is C08's clause
 	e.R.Outcome(obs.Describe())
+	// reference-model state at the end of the history: the settings in force
+	var st [4]string
+	for i, in := range c.Insts {
+		if in.BPM != nil {
+			st[0] = fmt.Sprint(*in.BPM)
+		}
+		if in.Meter != nil {
+			st[1] = in.Meter.String()
+		}
+		if in.Key != nil {
+			st[2] = *in.Key
+		}
+		if in.Vel != nil {
+			st[3] = *in.Vel
+		}
+		_ = i
+	}
+	e.R.State("in-force:" + strings.Join(st[:], ","))
 	return true
 }
 
